@@ -365,18 +365,17 @@ THOROUGH = {
             'c06_semilegal_gen_pawns_all_?', 'c06_semilegal_gen_all_w'],
     'C02': ['c02_make_move_step_w_ep', 'c02_make_move_step_w_castling', 'c02_make_move_step_w_pspecial', 'c02_make_move_step_w_king', 'c02_make_move_step_b_ep',
             'c02_make_move_step_b_castling', 'c02_make_move_step_b_foreign', 'c02_make_raw_step_w_*', 'c02_make_raw_step_b_ep', 'c02_make_raw_step_b_pspecial',
-            'c02_make_raw_step_b_foreign', 'c02_make_move_step_direct_w_ep', 'c09_san_simple_pawn_refused', 'c09_san_into_move_castling_?',
-            'c10_uci_accept_semi_w', 'c10_uci_accept_make_b', 'c10_uci_parse_exact', 'c13_chain_push_pop_s0_p0_castling', 'c13_chain_push_pop_s1_p0_ep',
+            'c02_make_raw_step_b_foreign', 'c09_san_simple_pawn_refused', 'c09_san_into_move_castling_?',
+            'c10_uci_accept_semi_w', 'c10_uci_parse_exact', 'c13_chain_push_pop_s0_p0_castling', 'c13_chain_push_pop_s1_p0_ep',
             'c13_chain_step_s0_p0_castling'],
     'C03': ['c03_make_unmake_*'],
-    'C04': ['c03_make_unmake_*', 'c04_nested_w_ep', 'c04_nested_b_castling', 'c13_chain_push_pop_s0_p0_castling', 'c13_chain_push_pop_s1_p0_ep', 'c17_walker_s0_p3_concrete_n_1'],
+    'C04': ['c03_make_unmake_*', 'c13_chain_push_pop_s0_p0_castling', 'c13_chain_push_pop_s1_p0_ep'],
     'C05': ['c05_hash_features', 'c05_scratch_hash_def', 'c05_hash_delta_*', 'c03_make_unmake_?_pspecial', 'c03_make_unmake_?_ep', 'c03_make_unmake_?_castling',
             'c11_validate_normal_w'],
-    'C06': ['c06_wellformed_exact', 'c06_semilegal_validator_*', 'c06_semilegal_gen_pawns_all_?', 'c06_semilegal_gen_p1_capture_?', 'c06_semilegal_gen_all_w', 'c06_semilegal_gen_capture_b'],
+    'C06': ['c06_wellformed_exact', 'c06_semilegal_validator_*', 'c06_semilegal_gen_pawns_all_?', 'c06_semilegal_gen_p1_capture_?', 'c06_semilegal_gen_all_w'],
     'C07': ['c07_outcome_classification_*', 'c07_outcome_lone_king_?', 'c07_castling_never_only_move_?'],
-    'C09': ['c09_san_simple_pawn_refused', 'c09_san_into_move_castling_?', 'c09_san_into_move_uci_w', 'c09_san_into_move_pawnmove_b', 'c09_san_into_move_pawncapture_w',
-            'c09_san_from_move_w_ep', 'c09_san_from_move_b_castling', 'c12_san_parse_total_5', 'c12_san_parse_total_7'],
-    'C10': ['c10_uci_struct_roundtrip_*', 'c10_uci_accept_semi_?', 'c10_uci_accept_legal_w', 'c10_uci_accept_make_b', 'c10_uci_parse_exact', 'c10_uci_text_roundtrip'],
+    'C09': ['c09_san_simple_pawn_refused', 'c09_san_into_move_castling_?', 'c12_san_parse_total_5', 'c12_san_parse_total_7'],
+    'C10': ['c10_uci_struct_roundtrip_*', 'c10_uci_accept_semi_?', 'c10_uci_parse_exact', 'c10_uci_text_roundtrip'],
     'C11': ['c11_validate_*'],
     'C12': ['c12_coord_*', 'c12_color_parse', 'c12_cell_parse', 'c12_castling_*', 'c12_san_parse_total_*', 'c10_uci_parse_exact', 'c10_uci_text_roundtrip'],
     'C13': ['c13_chain_step_s0_p0_castling', 'c13_chain_step_s0_p0_ep', 'c13_chain_step_s0_p0_pspecial', 'c13_chain_step_s0_p0_king', 'c13_chain_step_s0_p0_other',
@@ -389,8 +388,7 @@ THOROUGH = {
     'C15': ['c15_*'],
     'C16': ['c16_*'],
     'C17': ['c17_walker_s5_p3_concrete_nne_1', 'c17_walker_s0_p3_concrete_n_1', 'c17_walker_s0_p3_concrete_ep_1'],
-    'C18': ['c18_mirror_move_v_?_ep', 'c18_mirror_move_v_?_castling', 'c18_mirror_move_v_w_king', 'c18_mirror_move_v_b_pspecial', 'c18_mirror_move_v_w_queen',
-            'c18_mirror_move_h_w_pspecial', 'c18_mirror_move_h_b_ep', 'c18_mirror_outcome_*', 'c06_semilegal_gen_pawns_all_?', 'c06_semilegal_gen_p1_capture_?'],
+    'C18': ['c18_mirror_move_v_?_ep', 'c18_mirror_move_v_w_king', 'c18_mirror_move_h_w_pspecial', 'c18_mirror_outcome_*', 'c06_semilegal_gen_pawns_all_?', 'c06_semilegal_gen_p1_capture_?'],
     'C19': ['c15_bishop_exact', 'c15_rook_exact', 'c05_scratch_hash_def', 'c16_attackers_exact_w_*', 'c16_check_queries_exact_b', 'c06_semilegal_validator_?_castling',
             'c06_semilegal_validator_?_ep', 'c06_semilegal_validator_w_queen', 'c06_semilegal_validator_b_pspecial', 'c03_make_unmake_?_pspecial',
             'c03_make_unmake_?_castling', 'c03_make_unmake_w_ep', 'c06_semilegal_gen_pawns_all_?', 'c11_validate_accept_?', 'c01_prefiltered_w_queen'],
